@@ -126,6 +126,28 @@ REVERTS = [
     ("path-length and edge-position variables must not be integer", ["C10"]),
     ("MinSetCover must not drop a selected subset", ["C15"]),
     ("kMinPathError slack bound must account for path-length factors below 1", ["C08"]),
+    ("read_graph must not skip the edge lines of a block whose vertex-count line is 0", ["C20"]),
+    ("read_graph must not fail on a block whose graph has no source or no sink", ["C20"]),
+    ("blank lines between the header lines of a block", ["C20"]),
+    ("a non-positive k must be rejected also when solution_weights_superset is given", ["C19"]),
+    ("flow-conservation check must not depend on the order in which float values are summed", ["C19"]),
+    ("kFlowDecomp must not crash on an all-zero flow", ["C19"]),
+    ("malformed constraints must be rejected with ValueError, not IndexError/TypeError", ["C19"]),
+    ("guessed-weights helper of MinFlowDecompCycles must get the additional start/end nodes", ["C05"]),
+    ("elements_to_ignore_percentile must be computed over the weighted elements only", ["C11"]),
+    ("node-covering path covers must take the node lengths into the node expansion", ["C11"]),
+    ("repeated solve() of MinErrorFlow with few_flow_values_epsilon must start from the first phase", ["C18"]),
+    ("add_variables must honour scalar bounds of any real number type", ["C12"]),
+    ("abstract model classes must not share one default solve_statistics", ["C18"]),
+    ("with solution_weights_superset the error and slack bounds must cover the sum", ["C07"]),
+    ("greedy flow decomposition must return float weights for weight_type=float", ["C02"]),
+    ("flow-safe paths must not depend on float round-off", ["C05"]),
+    ("a subpath constraint covered by length must not be turned into a safe sequence when it has zero-length edges", ["C06"]),
+    ("greedy shortcut of kFlowDecomp must not be used when solution_weights_superset", ["C13"]),
+    ("MinGenSet must tolerate float round-off", ["C05"]),
+    ("optimization_options=None / solver_options=None must be accepted", ["C19"]),
+    ("stDiGraph.get_width must count an ignored edge once", ["C09"]),
+    ("safe-sequence computation must not recurse once per node of a path", ["C09"]),
 ]
 
 
